@@ -4,7 +4,9 @@ Small-scope exhaustive enumeration of programs: every view name of a structured 
 every code tree up to a size bound over an instruction alphabet that places SELF / TRANSFER_TOKENS /
 CREATE_CONTRACT / SET_DELEGATE at every depth under ordinary blocks (DIP, IF, ITER, ...) and under the three kinds of
 lambda body (LAMBDA, LAMBDA_REC, pushed lambda literal).  Each `view "name" unit unit { code }` goes through the real
-`ViewSection.match`; the oracle is the statement's predicate, verbatim.
+`ViewSection.match`; the oracle is the statement's predicate, verbatim.  "Anywhere" / "outside a lambda" are structural:
+a further alphabet adds the terminal instructions FAILWITH and NEVER as ordinary leaves, so restricted instructions also
+occur AFTER an instruction that ends the block (unreachable code), at every depth; such views must still be rejected.
 
 What `ViewSection.match` does (read from the code): `Micheline.match` builds a class per node (purely structural: a
 primitive must be registered with that number of args, type constructors assert a few shape rules, NO type checking
@@ -22,17 +24,18 @@ ID = 'C32'
 LEVEL = 'exploration'
 RULE = ('cases = (view name, code tree, input form); code trees: every instruction sequence with <=N instruction nodes '
         'over the alphabet (leaves incl. the 4 restricted instructions and near-misses; one-block wrappers incl. LAMBDA, '
-        'LAMBDA_REC, PUSH of a lambda literal (bare / inside list, pair, option, map); two-block wrappers); names: all '
+        'LAMBDA_REC, PUSH of a lambda literal (bare / inside list, pair, option, map); two-block wrappers; a "terminal" '
+        'alphabet with FAILWITH and NEVER as leaves so that restricted instructions follow a block-ending instruction); names: all '
         'strings <=2 (T:<=3) over a 12-character alphabet, for every length 0..40 a valid name and the same name with one '
         'forbidden character at every position, every 7-bit character alone and embedded, a few non-ASCII letters/digits. '
         'Non-trivial = the view contains a restricted instruction or its name is invalid or at the length boundary '
         '(>=31); distinct by (name, code, form)')
 BOUND = {
     'quick': 'code trees: core alphabet (5 leaves, 5+1 wrappers) size<=4, wide alphabet (10 leaves, 13+4 wrappers) size<=3; '
-             'Lambda_rec alphabet size<=3; all names x 5 codes; 6 names x all core trees size<=2; text form for wide trees size<=2',
+             'Lambda_rec alphabet size<=3; terminal alphabet (6 leaves incl. FAILWITH, NEVER; 3+1 wrappers) size<=4; all names x 5 codes; 6 names x all core trees size<=2; text form for wide and terminal trees size<=2',
     'thorough': 'code trees: core alphabet size<=5, wide alphabet size<=3, middle alphabet (6 leaves, 7+1 wrappers incl. nested '
-                'pushed lambdas) size<=4; names <=3 over 12 chars and the rest x 8 codes; 6 names x all core trees size<=3; '
-                'text form for wide trees size<=2',
+                'pushed lambdas) size<=4; terminal alphabet size<=5; names <=3 over 12 chars and the rest x 8 codes; 6 names x all core trees size<=3; '
+                'text form for wide and terminal trees size<=2',
 }
 ASSUMPTIONS = [
     '"letters, digits" in the statement are the ASCII ones (Tezos: a-z A-Z 0-9 _ . % @); non-ASCII letters are forbidden',
@@ -70,6 +73,8 @@ LEAVES = {
     'SELF%': ({'prim': 'SELF', 'annots': ['%foo']}, 'SELF %foo'),
     'PUSHSTR': ({'prim': 'PUSH', 'args': [{'prim': 'string'}, {'string': 'SELF'}]}, 'PUSH string "SELF"'),
     'CONTRACT': ({'prim': 'CONTRACT', 'args': [U]}, 'CONTRACT unit'),
+    'FAILWITH': ({'prim': 'FAILWITH'}, 'FAILWITH'),
+    'NEVER': ({'prim': 'NEVER'}, 'NEVER'),
     'CC_SELF': ({'prim': 'CREATE_CONTRACT', 'args': [_script([{'prim': 'SELF'}, {'prim': 'DROP'}] + _TRIVIAL)]},
                 'CREATE_CONTRACT { parameter unit ; storage unit ; code { SELF ; DROP ; CDR ; NIL operation ; PAIR } }'),
 }
@@ -104,6 +109,8 @@ BINARY = {
 }
 SELF_HEADS = ('SELF', 'SELF%')
 OP_HEADS = ('TT', 'SD', 'CC', 'CC_SELF')
+TERMINAL_HEADS = ('FAILWITH', 'NEVER')
+DEAD = ' (only after FAILWITH/NEVER in an enclosing block: unreachable code)'
 LAMBDA_KIND = {'LAMBDA': 'LAMBDA', 'LAMBDA_REC': 'LAMBDA_REC', 'PUSH': 'PUSH', 'PUSH_REC': 'PUSH',
                'PUSH_LIST': 'PUSHNEST', 'PUSH_PAIR': 'PUSHNEST', 'PUSH_SOME': 'PUSHNEST', 'PUSH_MAP': 'PUSHNEST'}
 KIND_TEXT = {'LAMBDA': 'a LAMBDA body', 'LAMBDA_REC': 'a LAMBDA_REC body', 'PUSH': 'a pushed lambda literal',
@@ -118,6 +125,7 @@ ALPHABETS = {
     'mid': (('DROP', 'SELF', 'TT', 'CC', 'SELF_ADDRESS', 'CC_SELF'),
             ('DIP', 'LAMBDA', 'LAMBDA_REC', 'PUSH', 'PUSH_LIST', 'PUSH_PAIR', 'PUSH_MAP'), ('IF_NONE',)),
     'rec': (('DROP', 'TT', 'SELF'), ('DIP', 'LAMBDA', 'PUSH_REC'), ()),
+    'term': (('DROP', 'FAILWITH', 'NEVER', 'SELF', 'TT', 'SD'), ('DIP', 'LAMBDA', 'PUSH'), ('IF',)),
 }
 
 
@@ -214,6 +222,17 @@ def walk(seq, path=(), chain=()):
             yield from walk(b, p + (bi,), sub)
 
 
+def walk_dead(seq, chain=(), dead=False):
+    """Yield (head, lambda chain, dead?) - dead = an earlier instruction of this or an enclosing block is terminal."""
+    for ins in seq:
+        yield ins[0], chain, dead
+        sub = chain + ((LAMBDA_KIND[ins[0]],) if ins[0] in LAMBDA_KIND else ())
+        for b in ins[1:]:
+            yield from walk_dead(b, sub, dead)
+        if ins[0] in TERMINAL_HEADS:
+            dead = True
+
+
 def map_heads(seq, f, path=()):
     out = []
     for i, ins in enumerate(seq):
@@ -234,17 +253,23 @@ def name_verdict(name):
 
 def code_verdict(tree):
     """-> (reason to reject or None, undecided?, kinds protecting restricted instructions)."""
-    reason, undecided, kinds = None, False, set()
-    for _, h, chain in walk(tree):
+    undecided, kinds, found = False, set(), set()
+    for h, chain, dead in walk_dead(tree):
         if h in SELF_HEADS:
-            reason = 'SELF'
+            found.add(('SELF', dead))
         elif h in OP_HEADS:
             if not chain:
-                reason = reason or 'restricted instruction outside a lambda body'
+                found.add(('OP', dead))
             else:
                 kinds.update(chain)
                 if h == 'CC_SELF':
                     undecided = True
+    reason = None
+    for key, text in ((('SELF', False), 'SELF'), (('OP', False), 'restricted instruction outside a lambda body'),
+                      (('SELF', True), 'SELF' + DEAD), (('OP', True), 'restricted instruction outside a lambda body' + DEAD)):
+        if key in found:
+            reason = text
+            break
     return reason, undecided, kinds
 
 
@@ -252,8 +277,6 @@ def expected(name, tree):
     """-> ('reject', reason) | ('accept', label) | ('undecided', why)."""
     creason, undecided, kinds = code_verdict(tree)
     nreason = name_verdict(name)
-    if creason == 'SELF':
-        return 'reject', 'SELF'
     if creason:
         return 'reject', creason
     if nreason:
@@ -400,10 +423,13 @@ def text_safe(name):
 
 
 # --- shards ----------------------------------------------------------------------------------------------------------------
+TERM_T = 5
+
+
 def shards(tier, seed):
     t = tier == 'thorough'
     out = []
-    plan = [('core', 5 if t else 4), ('wide', 3), ('rec', 3)] + ([('mid', 4)] if t else [])
+    plan = [('core', 5 if t else 4), ('wide', 3), ('rec', 3), ('term', TERM_T if t else 4)] + ([('mid', 4)] if t else [])
     for alpha, nmax in plan:
         leaves, unary, binary = ALPHABETS[alpha]
         out.append(('trees', alpha, 0, None, 0))
@@ -450,6 +476,11 @@ def cases_of(spec, tier):
                 i += 1
                 if i % step == k:
                     yield {'name': 'v', 'code': tree, 'form': 'text'}
+            for tree in seqs('term', n):
+                if any(h in TERMINAL_HEADS for _, h, _ in walk(tree)):
+                    i += 1
+                    if i % step == k:
+                        yield {'name': 'v', 'code': tree, 'form': 'text'}
         for nm in names(tier):
             if text_safe(nm):
                 i += 1
